@@ -1212,15 +1212,18 @@ class FuncGen:
                     pre.append('__CPROVER_assert(1, "UB.signed-overflow: %s nsw in %s discharged by operand widths (%d and %d signed bits into i%d)");'
                                % (op, S, ka, kb, n))
                     flags = tuple(f for f in flags if f != 'nsw')
+            # a product with a literal constant is never routed through the (possibly abstracted) VP_MULn / VP_SMULOVFn: it is
+            # cheap for SAT, and abstracting it would make 'x * 1 does not overflow' unprovable
+            const_mul = op == 'mul' and (a[0] == 'int' or b[0] == 'int')
             if pre is not None:
                 if 'nsw' in flags:
                     pre.append('__CPROVER_assert(!%s, "UB.signed-overflow: %s nsw in %s");'
-                               % (ovf(sym, n, sx, sy, True), op, S))
+                               % (ovf(sym, n, sx, sy, True, concrete=const_mul), op, S))
                 if 'nuw' in flags:
                     pre.append('__CPROVER_assert(!%s, "UB.unsigned-wrap: %s nuw in %s");'
                                % (ovf(sym, n, '((%s)%s)' % (ct, x), '((%s)%s)' % (ct, y), False), op, S))
             w = wide_t(n)
-            if op == 'mul' and n in (8, 16, 32, 64, 128):
+            if op == 'mul' and n in (8, 16, 32, 64, 128) and not const_mul:
                 return 'VP_MUL%d(%s, %s)' % (n, x, y)
             return '((%s)((%s)%s %s (%s)%s))' % (ct, w, x, sym, w, y)
         if op in ('and', 'or', 'xor'):
@@ -1697,14 +1700,14 @@ class FuncGen:
         raise Unsupported('intrinsic ' + name)
 
 
-def ovf(sym, n, x, y, signed):
+def ovf(sym, n, x, y, signed, concrete=False):
     """overflow predicate by exact arithmetic in a wider vector (CBMC's __CPROVER_overflow_* builtins promote
     non-standard operand widths such as the i33 clang uses for mixed-sign __builtin_*_overflow, and then miss the overflow)"""
     if n in (32, 64, 128):
         # operands of these widths are not promoted by C, so CBMC's dedicated overflow predicates are exact (and much
         # cheaper for multiplication than a 2n+2-bit product)
         fn = {'+': 'plus', '-': 'minus', '*': 'mult'}[sym]
-        if sym == '*' and signed:
+        if sym == '*' and signed and not concrete:
             return 'VP_SMULOVF%d(%s, %s)' % (n, x, y)     # the shared (possibly abstracted) signed-product-overflow predicate
         return '__CPROVER_overflow_%s(%s, %s)' % (fn, x, y)
     k = (2 * n + 2) if sym == '*' else n + 2
@@ -1835,17 +1838,22 @@ uint16_t __CPROVER_uninterpreted_mul16(uint16_t, uint16_t);
 uint32_t __CPROVER_uninterpreted_mul32(uint32_t, uint32_t);
 uint64_t __CPROVER_uninterpreted_mul64(uint64_t, uint64_t);
 vp_u128 __CPROVER_uninterpreted_mul128(vp_u128, vp_u128);
-#define VP_MUL8(a, b) __CPROVER_uninterpreted_mul8((uint8_t)(a), (uint8_t)(b))
-#define VP_MUL16(a, b) __CPROVER_uninterpreted_mul16((uint16_t)(a), (uint16_t)(b))
-#define VP_MUL32(a, b) __CPROVER_uninterpreted_mul32((uint32_t)(a), (uint32_t)(b))
-#define VP_MUL64(a, b) __CPROVER_uninterpreted_mul64((uint64_t)(a), (uint64_t)(b))
-#define VP_MUL128(a, b) __CPROVER_uninterpreted_mul128((vp_u128)(a), (vp_u128)(b))
+/* uninterpreted except for the unit: x*1 == x, 1*x == x (true of the machine product; keeps scaling by 2^0 transparent) */
+#define VP_MUL8(a, b) (((uint8_t)(b)) == 1 ? ((uint8_t)(a)) : (((uint8_t)(a)) == 1 ? ((uint8_t)(b)) : __CPROVER_uninterpreted_mul8((uint8_t)(a), (uint8_t)(b))))
+/* uninterpreted except for the unit: x*1 == x, 1*x == x (true of the machine product; keeps scaling by 2^0 transparent) */
+#define VP_MUL16(a, b) (((uint16_t)(b)) == 1 ? ((uint16_t)(a)) : (((uint16_t)(a)) == 1 ? ((uint16_t)(b)) : __CPROVER_uninterpreted_mul16((uint16_t)(a), (uint16_t)(b))))
+/* uninterpreted except for the unit: x*1 == x, 1*x == x (true of the machine product; keeps scaling by 2^0 transparent) */
+#define VP_MUL32(a, b) (((uint32_t)(b)) == 1 ? ((uint32_t)(a)) : (((uint32_t)(a)) == 1 ? ((uint32_t)(b)) : __CPROVER_uninterpreted_mul32((uint32_t)(a), (uint32_t)(b))))
+/* uninterpreted except for the unit: x*1 == x, 1*x == x (true of the machine product; keeps scaling by 2^0 transparent) */
+#define VP_MUL64(a, b) (((uint64_t)(b)) == 1 ? ((uint64_t)(a)) : (((uint64_t)(a)) == 1 ? ((uint64_t)(b)) : __CPROVER_uninterpreted_mul64((uint64_t)(a), (uint64_t)(b))))
+/* uninterpreted except for the unit: x*1 == x, 1*x == x (true of the machine product; keeps scaling by 2^0 transparent) */
+#define VP_MUL128(a, b) (((vp_u128)(b)) == 1 ? ((vp_u128)(a)) : (((vp_u128)(a)) == 1 ? ((vp_u128)(b)) : __CPROVER_uninterpreted_mul128((vp_u128)(a), (vp_u128)(b))))
 _Bool __CPROVER_uninterpreted_smulovf32(uint32_t, uint32_t);
 _Bool __CPROVER_uninterpreted_smulovf64(uint64_t, uint64_t);
 _Bool __CPROVER_uninterpreted_smulovf128(vp_u128, vp_u128);
-#define VP_SMULOVF32(a, b) __CPROVER_uninterpreted_smulovf32((uint32_t)(a), (uint32_t)(b))
-#define VP_SMULOVF64(a, b) __CPROVER_uninterpreted_smulovf64((uint64_t)(a), (uint64_t)(b))
-#define VP_SMULOVF128(a, b) __CPROVER_uninterpreted_smulovf128((vp_u128)(a), (vp_u128)(b))
+#define VP_SMULOVF32(a, b) ((((uint32_t)(a)) == 1 || ((uint32_t)(b)) == 1) ? (_Bool)0 : __CPROVER_uninterpreted_smulovf32((uint32_t)(a), (uint32_t)(b)))
+#define VP_SMULOVF64(a, b) ((((uint64_t)(a)) == 1 || ((uint64_t)(b)) == 1) ? (_Bool)0 : __CPROVER_uninterpreted_smulovf64((uint64_t)(a), (uint64_t)(b)))
+#define VP_SMULOVF128(a, b) ((((vp_u128)(a)) == 1 || ((vp_u128)(b)) == 1) ? (_Bool)0 : __CPROVER_uninterpreted_smulovf128((vp_u128)(a), (vp_u128)(b)))
 #else
 #define VP_SMULOVF32(a, b) __CPROVER_overflow_mult((int32_t)(a), (int32_t)(b))
 #define VP_SMULOVF64(a, b) __CPROVER_overflow_mult((int64_t)(a), (int64_t)(b))
